@@ -181,7 +181,10 @@ func (x *Exec) builtin(st *State, call *ast.CallExpr, name string) []Value {
 			if _, isCh := t.Underlying().(*types.Chan); isCh {
 				id := x.fresh("chan", SInt)
 				st.assume(Cmp(">", id, Int(0)), "fresh-chan")
-				return []Value{OpaqueV{T: id, Typ: t}}
+				ch := OpaqueV{T: id, Typ: t}
+				x.ghostSet(st, "sent", ch, Int(0))
+				x.ghostSet(st, "closed", ch, TFalse)
+				return []Value{ch}
 			}
 			fail("make(%s) not in subset at %s", t, x.pos(call.Pos()))
 		}
@@ -467,6 +470,9 @@ func (x *Exec) applyContract(st *State, call *ast.CallExpr, key string, c *FuncC
 				x.frameOK(st, App(SInt, "s-ref", Select(outer, Add(sv.Off, a2))), hk))), call.Pos(), "callee "+short+" modifies rows of "+name)
 			st.heaps[hk] = nh
 		}
+	}
+	if len(c.Ghost) > 0 {
+		x.ghostHavoc(st, c.Ghost)
 	}
 	// callee may allocate
 	na := x.fresh("alloc", SInt)
